@@ -121,6 +121,10 @@ def def_source(d, as_call_block=None):
     if d.get("prelude"):
         forms = {0: "{% macro nn(caller) %}{% endmacro %}", 1: "{% for kwargs in [] %}{% endfor %}",
                  2: "{% with varargs = 1 %}{% endwith %}"}
+        if d.get("prelude") == 2:
+            # the same, as plain assignments inside the scope an {% autoescape %} block opens
+            forms = {i: "{%% autoescape false %%}{%% set %s = 1 %%}{%% endautoescape %%}" % nm
+                     for i, nm in enumerate(("caller", "kwargs", "varargs"))}
         pre = "".join(forms[i] for i in (0, 1, 2) if d["uses"][i] and i not in d["params"])
     body = pre + ",".join(f"{p}={{{{ {NAMES[p]}|show }}}}" if printed(d, p) else f"{p}=_" for p in d["params"])
     # after printing, the body changes list-valued parameters in place: what one call does to its arguments or
@@ -387,7 +391,7 @@ def signatures(ctx, max_n):
                 for uses in itertools.product((0, 1), repeat=3):
                     defaults = [ctx.rng.choice(default_options(params, n - nd + j)) for j in range(nd)]
                     out.append({"params": params, "defaults": defaults, "uses": list(uses),
-                                "o2": ctx.rng.random() < 0.5, "prelude": ctx.rng.random() < 0.25, "fwd": ctx.rng.random() < 0.15,
+                                "o2": ctx.rng.random() < 0.5, "prelude": ctx.rng.choice([False, False, False, False, False, True, 2]), "fwd": ctx.rng.random() < 0.15,
                                 "useform": ctx.rng.choice([0, 0, 0, 2, 3, 4, 5, 6, 7, 8])})
     return out
 
@@ -434,7 +438,7 @@ def random_call(ctx, d, path):
 # ------------------------------------------------------------------ judging one case
 def judge(ctx, real, case, mline, finals_queue):
     d, c = case["def"], case["call"]
-    key = (tuple(d["params"]), tuple(d["defaults"]), tuple(d["uses"]), d["o2"], bool(d.get("prelude")), bool(d.get("fwd")), d.get("useform", 0))
+    key = (tuple(d["params"]), tuple(d["defaults"]), tuple(d["uses"]), d["o2"], d.get("prelude") or 0, bool(d.get("fwd")), d.get("useform", 0))
     fields = dict(f.split("=", 1) for f in mline.split(" "))
     mC = fields["C"]
     rd = real.compiled_def(d, key)
